@@ -455,14 +455,24 @@ def must_space(a, b):
     return True
 
 
-def join(toks, rng, tight):
-    """tight = probability of leaving out optional whitespace"""
+COMMENTS = ["/* c */", "/** doc **/", "/***/", "/**/", "/**** banner ****/", "/* a * b / c */", "/* x **/", "/** y */", "/*\n * multi\n **/",
+            "// line\n", "// a /* b\n", "/* // */"]
+
+
+def join(toks, rng, tight, comments=0.0):
+    """tight = probability of leaving out optional whitespace; comments = probability that a gap is a comment (a comment is blank
+    space for the parser; the lexer model does not have comments, the post-order oracle does not care)"""
     out = []
     if rng.random() < 0.2:
         out.append("".join(rng.choice(WS) for _ in range(rng.randint(1, 2))))
     for i, t in enumerate(toks):
         if i:
-            if must_space(toks[i - 1], t) or rng.random() >= tight:
+            if comments and rng.random() < comments:
+                # glued to its neighbours unless that would fuse with a `/` or `*` of the neighbour into another comment marker
+                pre = " " if toks[i - 1][1][-1:] in "/*" else rng.choice(["", " "])
+                post = " " if t[1][:1] in "/*" else rng.choice(["", " "])
+                out.append(pre + rng.choice(COMMENTS) + post)
+            elif must_space(toks[i - 1], t) or rng.random() >= tight:
                 out.append("".join(rng.choice(WS) if rng.random() < 0.4 else " " for _ in range(rng.choice([1, 1, 1, 2, 3]))))
         out.append(t[1])
     if rng.random() < 0.2:
@@ -470,8 +480,8 @@ def join(toks, rng, tight):
     return "".join(out)
 
 
-def render(ss, rng, red=0.0, tight=0.3, plain=False):
-    return join(emit_block(ss, rng, red, plain), rng, tight)
+def render(ss, rng, red=0.0, tight=0.3, plain=False, comments=0.0):
+    return join(emit_block(ss, rng, red, plain), rng, tight, comments)
 
 
 # ------------------------------------------------------------------------------------ running
